@@ -8,15 +8,15 @@ use apache_avro::schema::Schema;
 use apache_avro::types::Value;
 
 /// writer value kinds: 0 int, 1 long, 2 float, 3 double, 4 bytes, 5 string  (payload from the symbolic pool)
-struct Pool {
-    i: i32,
-    l: i64,
-    f: u32,
-    d: u64,
-    b: [u8; 4],
-    blen: usize,
+pub struct Pool {
+    pub i: i32,
+    pub l: i64,
+    pub f: u32,
+    pub d: u64,
+    pub b: [u8; 4],
+    pub blen: usize,
 }
-fn writer_value<const W: u8>(p: &Pool) -> Value {
+pub fn writer_value<const W: u8>(p: &Pool) -> Value {
     match W {
         0 => Value::Int(p.i),
         1 => Value::Long(p.l),
@@ -26,7 +26,7 @@ fn writer_value<const W: u8>(p: &Pool) -> Value {
         _ => Value::String(unsafe { String::from_utf8_unchecked(vec_upto4(p.b, p.blen)) }),
     }
 }
-fn reader_schema<const R: u8>() -> Schema {
+pub fn reader_schema<const R: u8>() -> Schema {
     match R {
         0 => Schema::Int,
         1 => Schema::Long,
@@ -102,7 +102,7 @@ fn pair<const W: u8, const R: u8>(p: &Pool, names: &Names) {
     }
 }
 
-fn pool() -> Pool {
+pub fn pool() -> Pool {
     let blen = any_usize();
     assume(blen <= 2);
     Pool { i: any_i32(), l: any_i64(), f: any_u32(), d: any_u64(), b: any_bytes(), blen }
